@@ -44,7 +44,8 @@ CLASSES = {
     SA: {
         "fields": {"_StatefulAutonomous__state": f"Ref:{ST}", "_StatefulAutonomous__done": "Bool", "_StatefulAutonomous__built": "Bool",
                    "_StatefulAutonomous__first": "Str", "_StatefulAutonomous__sd_args": "Seq[(Str,Str,Ref:SDGetter,Ref:PyObj)]",
-                   "battery_voltage": "Real", "g_attrs": "Map[Str,Ref:PyObj]", "g_last_tm": "Real", "g_runs": "Int", "MODE_NAME": "Str", "_StatefulAutonomous__table": "Ref:SDTable"},
+                   "battery_voltage": "Real", "g_attrs": "Map[Str,Ref:PyObj]", "g_last_tm": "Real", "g_runs": "Int", "?MODE_NAME": "Bool", "MODE_NAME": "Str", "?initialize": "Bool", "_StatefulAutonomous__table": "Ref:SDTable", "_StatefulAutonomous__tunables": "Seq[Str]"},
+        "class_level": ["MODE_NAME", "initialize"],
         "alias": {"st": "CUR(self)", "first": "self._StatefulAutonomous__first", "sdargs": "self._StatefulAutonomous__sd_args"},
         "wf": {
             "W1 the first state exists": "is_state(first)",
@@ -64,7 +65,7 @@ CLASSES = {
     },
     "SDGetter": {"fields": {"table": "Ref:SDTable", "kind": "Int"},       # kind: 0 getBoolean, 1 getNumber, 2 getString
                  "callable_of": {"methods": {"SDTable.getBoolean": 0, "SDTable.getNumber": 1, "SDTable.getString": 2}, "link": "table", "tag": "kind"}},
-    "SDTable": {"fields": {"g_put": "Map[Str,Ref:PyObj]"}},
+    "SDTable": {"fields": {"g_put": "Map[Str,Ref:PyObj]", "g_name": "Str"}}, "SDInst": {"fields": {}},
 }
 _CB_MOD = [f"{SA}._StatefulAutonomous__state[*]", f"{ST}.ran[*]", f"{SA}.g_runs[*]"]
 CONTRACTS = {
@@ -102,7 +103,7 @@ CONTRACTS = {
     "SDTable.getString": {"kind": "external", "params": {"key": "Str", "default": "Ref:PyObj"}, "returns": "Ref:PyObj", "ensures": {"the dashboard value": "result is dash(key)"}, "note": "ntcore NetworkTable.getString"},
     f"{SA}._StatefulAutonomous__register_sd_var_internal": {
         "source": f"{SA}.__register_sd_var_internal", "receivers": [SA], "params": {"name": "Str", "default": "Ref:PyObj", "add_prefix": "Bool", "readback": "Bool"}, "returns": "Bool", "raises": "ValueError",
-        "requires": {"constructed far enough": "self._StatefulAutonomous__table is not None"},
+        "requires": {"constructed far enough": "self._StatefulAutonomous__table is not None and has_attr(self, 'MODE_NAME')"},
         "modifies": ["self._StatefulAutonomous__sd_args", "self._StatefulAutonomous__table.g_put", "SDGetter.table[*]", "SDGetter.kind[*]"],
         "ensures": {
             "C15.V1 the variable is published with its default under '<MODE_NAME>\\<name>' (add_prefix) or '<name>'":
@@ -123,9 +124,39 @@ CONTRACTS = {
     "sa.names_of": {"kind": "external", "params": {"xs": "py"}, "returns": "py", "ensures": {}, "note": "[name for _, (name, desc) in sorted_states] (list comprehension: dashboard list of state names in definition order)"},
     "sa.descs_of": {"kind": "external", "params": {"xs": "py"}, "returns": "py", "ensures": {}, "note": "[desc for _, (name, desc) in sorted_states]"},
     "SDTable.putStringArray": {"kind": "external", "params": {"key": "Str", "value": "py"}, "ensures": {}, "note": "ntcore"},
-    f"{SA}.__build_states": {
-        "receivers": [SA], "params": {}, "raises": "ValueError", "no_wf": True, "prefer": "cvc5",
-        "requires": {"constructed far enough (__init__ created the table and the empty registration list)": "self._StatefulAutonomous__table is not None and len(sdargs) >= 0"},
+    "ntcore.NetworkTableInstance.getDefault": {"kind": "external", "params": {}, "returns": "Ref:SDInst", "ensures": {"an instance": "result is not None"}, "note": "ntcore"},
+    "SDInst.getTable": {"kind": "external", "params": {"name": "Str"}, "returns": "Ref:SDTable", "ensures": {"the table of that name": "result is not None and result.g_name == name"}, "note": "ntcore getTable"},
+    f"{SA}.initialize": {"kind": "callback", "params": {}, "raises": True, "modifies": [f"{SA}._StatefulAutonomous__sd_args[*]", "SDTable.g_put[*]", "SDGetter.table[*]", "SDGetter.kind[*]", f"{SA}._StatefulAutonomous__tunables[*]", f"{SA}.g_attrs[*]"],
+                         "ensures": {"user hook: may register more variables (register_sd_var keeps earlier registrations)":
+                                     "len(self._StatefulAutonomous__sd_args) >= old(len(self._StatefulAutonomous__sd_args)) and forall(j, Int, implies(0 <= j and j < old(len(self._StatefulAutonomous__sd_args)), "
+                                     "self._StatefulAutonomous__sd_args[j][0] == old(self._StatefulAutonomous__sd_args[j][0]) and self._StatefulAutonomous__sd_args[j][1] == old(self._StatefulAutonomous__sd_args[j][1])))"},
+                         "note": "optional user hook initialize(): typically calls register_sd_var"},
+    f"{SA}.__init__": {
+        "receivers": [SA], "ctor": True, "no_wf": True, "params": {"components": "Opt[Map[Str,Ref:PyObj]]"}, "raises": True, "prefer": "cvc5",
+        "requires": {"a proper dict (or None)": "implies(components is not None, wf_map(unwrap(components)))"},
+        "modifies": [f"{SA}.g_attrs[*]", "self._StatefulAutonomous__table", f"{SA}._StatefulAutonomous__sd_args[*]", "self._StatefulAutonomous__first", "self._StatefulAutonomous__built",
+                     "SDTable.g_put[*]", "SDGetter.table[*]", "SDGetter.kind[*]", f"{SA}._StatefulAutonomous__tunables[*]"],
+        "loops": {0: {"inv": {"attributes so far": "True"}}},
+        "ensures": {"C15.C1 a constructed mode has MODE_NAME, talks to the 'SmartDashboard' table, is built (exactly one first state) and every timed state's '<state>_duration' is registered under '<MODE_NAME>\\<state>_duration'":
+                    "has_attr(self, 'MODE_NAME') and self._StatefulAutonomous__table is not None and self._StatefulAutonomous__table.g_name == 'SmartDashboard' and self._StatefulAutonomous__built and "
+                    "forall(j, Int, implies(0 <= j and j < len(g_cdir) and is_member_state(g_cdir[j]) and has_attr(member(g_cdir[j]), 'duration'), "
+                    "exists(a, Int, 0 <= a and a < len(sdargs) and sdargs[a][0] == member(g_cdir[j]).name + '_duration' and sdargs[a][1] == sdkey(self, member(g_cdir[j]).name + '_duration', True))))"},
+        "ensures_raise": {"construction fails for a missing MODE_NAME, a malformed state set, or a failing initialize()": "True"},
+    },
+    "sa.tunable_label": {"kind": "external", "params": {"name": "Str", "vmin": "Real", "vmax": "Real"}, "returns": "Str", "ensures": {}, "note": "the f-string '<name>|<vmin:0.3f>|<vmax:0.3f>' (number formatting: label for the dashboard's tuning widget)"},
+    f"{SA}.register_sd_var": {
+        "receivers": [SA], "params": {"name": "Str", "default": "Ref:PyObj", "add_prefix": "Bool", "vmin": "Real", "vmax": "Real"}, "raises": "ValueError", "no_wf": True,
+        "requires": {"constructed far enough": "self._StatefulAutonomous__table is not None and has_attr(self, 'MODE_NAME') and len(sdargs) >= 0 and len(self._StatefulAutonomous__tunables) >= 0"},
+        "modifies": [f"{SA}._StatefulAutonomous__sd_args[*]", "SDTable.g_put[*]", "SDGetter.table[*]", "SDGetter.kind[*]", "self._StatefulAutonomous__tunables"],
+        "ensures": {"C15.V4 a user variable is published and registered for on_enable exactly like a '<state>_duration' (key '<MODE_NAME>\\<name>' with add_prefix, '<name>' without)":
+                    "len(sdargs) == old(len(sdargs)) + 1 and sdargs[len(sdargs) - 1][0] == name and sdargs[len(sdargs) - 1][1] == sdkey(self, name, add_prefix) and sdargs[len(sdargs) - 1][3] is default and "
+                    "forall(j, Int, implies(0 <= j and j < old(len(sdargs)), sdargs[j][0] == old(sdargs[j][0]) and sdargs[j][1] == old(sdargs[j][1]) and sdargs[j][2] is old(sdargs[j][2]) and sdargs[j][3] is old(sdargs[j][3])))",
+                    "only prefixed variables are listed as tunables": "len(self._StatefulAutonomous__tunables) == old(len(self._StatefulAutonomous__tunables)) + (1 if add_prefix else 0)"},
+        "ensures_raise": {"rejected like any registration": "(' ' in name) or not sdtyped(default)"},
+    },
+    f"{SA}._StatefulAutonomous__build_states": {
+        "source": f"{SA}.__build_states", "receivers": [SA], "params": {}, "raises": "ValueError", "no_wf": True, "prefer": "cvc5",
+        "requires": {"constructed far enough (__init__ checked MODE_NAME, created the table and the empty registration list)": "self._StatefulAutonomous__table is not None and has_attr(self, 'MODE_NAME') and len(sdargs) >= 0"},
         "local_sorts": {"states": "Map[Int,(Str,Opt[Str])]"},
         "modifies": ["self._StatefulAutonomous__first", "self._StatefulAutonomous__built", f"{SA}._StatefulAutonomous__sd_args[*]", "SDTable.g_put[*]", "SDGetter.table[*]", "SDGetter.kind[*]"],
         "loops": {0: {"inv": {
@@ -196,9 +227,10 @@ CONTRACTS = {
 }
 NAMES = {"dir": ("contract", "sa.dir")}
 CALL_OVERRIDES = {(f"{SA}.__build_states", "sorted"): "sa.sorted_items"}
-EXPR_OVERRIDES = {(f"{SA}.__build_states", "[name for _, (name, desc) in sorted_states]"): ("sa.names_of", ["sorted_states"]),
+EXPR_OVERRIDES = {(f"{SA}.register_sd_var", "f'{name}|{vmin:0.3f}|{vmax:0.3f}'"): ("sa.tunable_label", ["name", "vmin", "vmax"]),
+                  (f"{SA}.__build_states", "[name for _, (name, desc) in sorted_states]"): ("sa.names_of", ["sorted_states"]),
                   (f"{SA}.__build_states", "[desc for _, (name, desc) in sorted_states]"): ("sa.descs_of", ["sorted_states"])}
-DYN_GETATTR = {(f"{SA}.__build_states", "getattr"): "sa.member", (f"{SA}.next_state", "getattr"): "sa.class_attr", (f"{SA}.on_iteration", "getattr"): "sa.inst_attr",
+DYN_GETATTR = {(f"{SA}.__init__", "setattr"): "sa.setattr", (f"{SA}.__build_states", "getattr"): "sa.member", (f"{SA}.next_state", "getattr"): "sa.class_attr", (f"{SA}.on_iteration", "getattr"): "sa.inst_attr",
                (f"{SA}.on_enable", "setattr"): "sa.setattr"}
 
 
